@@ -1,0 +1,19 @@
+//go:build verif
+
+package sm3
+
+import "hash"
+
+// VerifState projects the internal state of a hash made by New, for trace validation.
+func VerifState(hh hash.Hash) (h [8]uint32, x []byte, nx int, length uint64) {
+	s := hh.(*SM3)
+	return s.h, append([]byte(nil), s.x[:s.nx]...), s.nx, s.len
+}
+
+// VerifTT exposes the precomputed round constants.
+func VerifTT() [64]uint32 { return tt }
+
+// VerifIV exposes the initial value.
+func VerifIV() [8]uint32 {
+	return [8]uint32{iv0, iv1, iv2, iv3, iv4, iv5, iv6, iv7}
+}
